@@ -23,7 +23,23 @@ NAMES = ["None", "naive", "fixed", "capacity", "effective_throughput", "lala"]
 EVAL_BD = ["EarlierResultsUnchanged", "EffectiveChannelBlockDiagonal", "ReturnedChannelIsChannelTimesPrecoder", "PowerLePerUser", "PowerEqPerUser",
            "PowerReachedByOne", "EffectiveStreamsOrthogonal", "WaterLevelCommonOnPoweredStreams", "InputsUntouched"]
 EVAL_EXT = ["EarlierResultsUnchanged", "InterUserNullWithExtInt", "PowerEqPerUser", "StreamCountsMatchPrecoders", "ReceiveFilterInvertsOnPoweredStreams",
-            "ExtIntRemovedWhenEnoughStreamsSacrificed", "InputsUntouched"]
+            "ExtIntRemovedWhenEnoughStreamsSacrificed", "DecidedCountAvoidsDominantInterference", "InputsUntouched"]
+
+
+def draw_pe(rs):
+    """external interference power: none, far below the noise, moderate, dominant"""
+    u = rs.rand()
+    if u < 0.2:
+        return 0.0
+    if u < 0.3:
+        return 1e-4
+    if u < 0.5:
+        return 1e6
+    return float(np.round(10 ** rs.uniform(-0.5, 1.0), 4))
+
+
+def pe_label(pe):
+    return "zero" if pe == 0 else ("huge" if pe >= 1e6 else "hi")
 
 
 def _edge(op, a, req=()):
@@ -38,9 +54,9 @@ def record_trace(job):
     K = int(rs.randint(2, 6))
     p = float(np.round(10 ** rs.uniform(-1.3, 1.0), 4))
     nv = float(np.round(10 ** rs.uniform(-4.0, 0.5), 6))
-    pe = 0.0 if rs.rand() < 0.25 else float(np.round(10 ** rs.uniform(-0.5, 1.0), 4))
+    pe = draw_pe(rs)
     drv.step(_edge("Construct", {"cls": cls, "K": K, "p": [p, 1], "nv": [nv, 1], "pe": [pe, 1]}), False)
-    ev = [{"op": "Construct", "cls": cls, "K": K, "pe": "zero" if pe == 0 else "hi"}]
+    ev = [{"op": "Construct", "cls": cls, "K": K, "pe": pe_label(pe)}]
     raw = {"cls": cls, "K": K, "p": p, "nv": nv, "pe": pe}
     acc_ns = 0          # num_streams of the last ACCEPTED call (only to stay inside the quantifier num_streams <= N)
     N = 0
@@ -63,9 +79,9 @@ def record_trace(job):
             attr = ["iPu", "noise_var"] + (["pe"] if cls != "BD" else [])
             attr = attr[rs.randint(0, len(attr))]
             val = {"iPu": float(np.round(10 ** rs.uniform(-1.3, 1.0), 4)), "noise_var": float(np.round(10 ** rs.uniform(-4.0, 0.5), 6)),
-                   "pe": 0.0 if rs.rand() < 0.3 else float(np.round(10 ** rs.uniform(-0.5, 1.0), 4))}[attr]
+                   "pe": draw_pe(rs)}[attr]
             msgs = drv.step(dict(_edge("SetAttr", {"attr": attr, "value": [val, 1]}), probe={"ok": False}), False)
-            rec = {"op": "SetAttr", "attr": attr, "pe": "zero" if drv.cfg["pe"] == 0 else "hi"}
+            rec = {"op": "SetAttr", "attr": attr, "pe": pe_label(drv.cfg["pe"])}
             if msgs:
                 rec["op"] = "SetAttrBroken:" + msgs[0][1][:150]
             ev.append(rec)
@@ -99,8 +115,10 @@ def record_trace(job):
                 N = max(1, acc_ns, 12 // K)
             rE = 0 if cls == "BD" else int(rs.randint(1, 4))
             sc = int([-7, -3, 0, 0, 4, 7][rs.randint(0, 6)])      # channel-scale regime (path loss / units)
-            drv.step(_edge("NewChannel", {"N": N, "rE": rE, "sc": sc}), False)
-            ev.append({"op": "NewChannel", "N": N, "rE": rE, "sc": sc})
+            src = 0 if rE == 0 else (2 if rE >= 2 and rs.rand() < 0.5 else 1)      # several external interference sources
+            nte = [rE] if src <= 1 else [rE // 2, rE - rE // 2]
+            drv.step(_edge("NewChannel", {"N": N, "rE": rE, "sc": sc, "nte": nte}), False)
+            ev.append({"op": "NewChannel", "N": N, "rE": rE, "sc": sc, "src": src})
             continue
         rec = {"op": op, "raised": "", "ns": [], "evaluated": [], "holds": []}
         if op == "SolveBD":
